@@ -367,6 +367,39 @@ pub fn gen_ledger(r: &mut Rng, cfg: &GenCfg) -> Ledger {
     out
 }
 
+/// Sums that depend on the order of their terms: one disposal identified with 3–6 later purchases of
+/// very different sizes lying behind a SPLIT whose ratio divides none of them (each claim becomes a
+/// non-terminating decimal; their total is whole), and a second disposal, before the split, of exactly
+/// the rest of the holding — a one-ulp difference in the total of the outstanding claims decides whether
+/// the ledger is accepted.
+pub fn gen_claim_sum(r: &mut Rng) -> Ledger {
+    let tk = "AAA";
+    let k = *r.pick(&[3i64, 7, 9, 6, 11, 13]);
+    let n = 3 + r.below(4) as usize;
+    let mut qs: Vec<i64> = Vec::new();
+    for _ in 0..400 {
+        qs = (0..n).map(|i| (1 + r.below(9) as i64) * 10i64.pow((i % 5) as u32) * if r.chance(1, 2) { 2 } else { 1 }).collect();
+        if qs.iter().all(|q| q % k != 0) && qs.iter().sum::<i64>() % k == 0 { break; }
+    }
+    let claims = qs.iter().sum::<i64>() / k;
+    let first = claims + if r.chance(1, 2) { 0 } else { r.range(1, 50) };
+    let second = r.range(1, 1000);
+    let d0 = d(2020 + r.below(4) as i32, *r.pick(&[2u32, 6, 9, 11]), 1 + r.below(20) as u32);
+    let mut l: Ledger = vec![
+        GTx::new(d0 - Duration::days(r.range(40, 500)), tk, Kind::Buy, Decimal::from(first + second), gen_price(r), Decimal::ZERO),
+        GTx::new(d0, tk, Kind::Sell, Decimal::from(first), gen_price(r), Decimal::ZERO),
+        GTx::new(d0 + Duration::days(1), tk, Kind::Sell, Decimal::from(second), gen_price(r), Decimal::ZERO),
+        GTx::new(d0 + Duration::days(2), tk, Kind::Split, Decimal::from(k), Decimal::ZERO, Decimal::ZERO),
+    ];
+    r.shuffle(&mut qs);
+    for (i, q) in qs.iter().enumerate() {
+        l.push(GTx::new(d0 + Duration::days(3 + 4 * i as i64 + r.below(3) as i64), tk, Kind::Buy, Decimal::from(*q), gen_price(r), Decimal::ZERO));
+    }
+    if r.chance(1, 2) { r.shuffle(&mut l); }
+    l
+}
+
+
 /// Contention shapes built deliberately: k earlier disposals × one later purchase that may have its
 /// own same-day sale × optional split between.
 pub fn gen_contention(r: &mut Rng, cfg: &GenCfg) -> Ledger {
